@@ -9,6 +9,10 @@ CFGS = [('xyzw', []), ('wxyz', ['-DGLM_FORCE_QUAT_DATA_WXYZ'])]
 
 def SPEC(tier):
     stages = [Stage(n, SRCS, flags=f + ['-DC04_CFG="%s"' % n]) for n, f in CFGS]
+    # GLM_FORCE_QUAT_DATA_XYZW changes the argument order of the 4-scalar constructor (a documented API switch), so the constructor
+    # targets do not apply; every relation that is stated on named components / through wxyz() must still hold in that build
+    stages.append(Stage('xyzw-ctor-order', SRCS, flags=['-DGLM_FORCE_QUAT_DATA_XYZW', '-DC04_CFG="xyzw-ctor-order"'], scale=0.3,
+                        only='rotate-vector|quat-cast|product|angle-axis|euler-quat|two-vectors|gtx-rotate-vector|exp-log-pow|quat-look-at|dual-quaternion'))
     return {'stages': stages,
             'assumptions': props.COMMON_ASSUME + [
                 'unit quaternions / unit vectors are unit after rounding each component to T; |q|^2 - 1 is measured in long double and enters every bound whose documented formula assumes |q| = 1',
